@@ -23,6 +23,7 @@ type Thread struct {
 	At      string // last point the harness saw it arrive at ("start", a point name, or "done")
 	arrive  chan string
 	release chan struct{}
+	wantsDB atomic.Bool // set by the thread itself (Mark) right before it asks the pool for a connection
 }
 
 var (
@@ -61,6 +62,25 @@ func Point(name string) {
 	<-t.release
 }
 
+// Mark records (without parking) that the calling controlled thread is about to acquire a pooled
+// database connection. The overlay inserts it immediately before db.Query / db.Exec. The harness uses it
+// to tell "waiting for the connection" from "merely slow": a thread that has not marked cannot be blocked
+// on the pool, however long it takes to reach its next point.
+func Mark() {
+	if active.Load() == 0 {
+		return
+	}
+	mu.Lock()
+	t := threads[goid()]
+	mu.Unlock()
+	if t != nil {
+		t.wantsDB.Store(true)
+	}
+}
+
+// WantsDB reports whether the thread has passed a Mark since it was last released.
+func (t *Thread) WantsDB() bool { return t.wantsDB.Load() }
+
 // Spawn starts f on a new controlled goroutine and returns once it is parked at "start".
 func Spawn(name string, f func()) *Thread {
 	t := &Thread{Name: name, arrive: make(chan string, 1), release: make(chan struct{})}
@@ -90,6 +110,7 @@ func (t *Thread) Done() bool { return t.At == "done" }
 
 // Release lets a parked thread run; it does not wait for it to stop again.
 func (t *Thread) Release() {
+	t.wantsDB.Store(false)
 	select {
 	case t.release <- struct{}{}:
 	case <-time.After(60 * time.Second):
